@@ -203,10 +203,12 @@ def rule_r(repo, res):
                                 f"are not accepted by ODLDecoder.decode_datetime (offset pattern {pat!r}): the value is "
                                 "not read back as a time with that offset", witness=bad[0], where=f"pvl/encoder.py:{r.lineno}"))
         # R2: both signs the reader accepts can be written (or the writer refuses negative offsets)
+        from . import canon
+        cfn = canon.canon(repo, c, fn, module="encoder")
         lits = {x.value for x in ast.walk(fn) if isinstance(x, ast.Constant) and isinstance(x.value, str)}
         can_minus = any(l.startswith("-") or l == "-" for l in lits)
         tests_sign = any(isinstance(n, ast.Compare) and ("timedelta" in norm(n) or "total_seconds" in norm(n) or "days" in norm(n))
-                         and any(isinstance(o, (ast.Lt, ast.Gt, ast.LtE, ast.GtE)) for o in n.ops) for n in ast.walk(fn))
+                         and any(isinstance(o, (ast.Lt, ast.Gt, ast.LtE, ast.GtE)) for o in n.ops) for n in ast.walk(cfn))
         ok = ("-" not in signs_dec) or (can_minus and tests_sign)
         res.oblige("R2", f"{c}.encode_time can write both signs the reader accepts ({sorted(signs_dec)}) or refuses", ok=ok)
         if not ok:
@@ -217,8 +219,9 @@ def rule_r(repo, res):
 
 
 def rule_decode_side(repo, res):
+    from . import canon
     # is_leap_seconds guards a missing pattern
-    fn = repo.method("PVLDecoder", "is_leap_seconds")
+    fn = canon.canon_method(repo, "PVLDecoder", "is_leap_seconds")
     ok = any(isinstance(n, ast.Compare) and isinstance(n.ops[0], ast.IsNot) and norm(n.comparators[0]) == "None" for n in ast.walk(fn))
     res.oblige("LEAP", "PVLDecoder.is_leap_seconds tests each pattern for None before matching", ok=ok)
     if not ok:
@@ -232,7 +235,7 @@ def rule_decode_side(repo, res):
         res.add(Finding("LEAP", "PVLDecoder.is_leap_seconds", "patterns", f"is_leap_seconds consults {sorted(uses)}",
                         where=f"pvl/decoder.py:{fn.lineno}"))
     # PVLDecoder.decode_datetime: trial order date, time, datetime; Z -> UTC; default zone
-    fn = repo.method("PVLDecoder", "decode_datetime")
+    fn = canon.canon_method(repo, "PVLDecoder", "decode_datetime")
     tabs = [norm(n.args[3]) for n in ast.walk(fn) if isinstance(n, ast.Call) and norm(n.func) == "for_try_except" and len(n.args) >= 4]
     ok = tabs == ["self.grammar.date_formats", "self.grammar.time_formats", "self.grammar.datetime_formats"]
     res.oblige("DT", "PVLDecoder.decode_datetime tries date, time, then datetime formats of the grammar", ok=ok)
@@ -258,25 +261,35 @@ def rule_decode_side(repo, res):
         res.add(Finding("DT", "PVLDecoder.decode_datetime", "utcoffset() is None", "zone attachment is no longer guarded by "
                         "`utcoffset() is None`", where=f"pvl/decoder.py:{fn.lineno}"))
     # ODL: offset = sign * (hours, minutes) of the matched groups
-    fn = repo.method("ODLDecoder", "decode_datetime")
-    src = norm(fn, 5000)
-    ok = "timedelta(hours=int(gd['hour']), minutes=int(gd['minute']))" in src
+    fn = canon.canon_method(repo, "ODLDecoder", "decode_datetime")
+    def group(e, name):
+        """e is int(<X>[name]) / <X>[name] for a constant group name"""
+        if isinstance(e, ast.Call) and norm(e.func) == "int" and len(e.args) == 1 and not e.keywords:
+            e = e.args[0]
+        return isinstance(e, ast.Subscript) and isinstance(e.slice, ast.Constant) and e.slice.value == name
+    tds = [n for n in ast.walk(fn) if isinstance(n, ast.Call) and norm(n.func).split(".")[-1] == "timedelta" and n.keywords]
+    ok = any({k.arg for k in t.keywords} == {"hours", "minutes"} and not t.args
+             and all(group(k.value, {"hours": "hour", "minutes": "minute"}[k.arg]) and isinstance(k.value, ast.Call) for k in t.keywords)
+             for t in tds)
     res.oblige("DT", "ODLDecoder.decode_datetime: offset = timedelta(hours=<hour group>, minutes=<minute group>)", ok=ok)
     if not ok:
         res.add(Finding("DT", "ODLDecoder.decode_datetime", "offset fields", "the zone offset is no longer built from the hour and "
                         "minute groups of the pattern", where=f"pvl/decoder.py:{fn.lineno}"))
-    negs = [n for n in ast.walk(fn) if isinstance(n, ast.If) and norm(n.test) in ("gd['sign'] == '-'",)]
-    ok = bool(negs) and any("-1 * offset" in norm(b) or "-offset" in norm(b) for n in negs for b in n.body)
+    negs = [n for n in ast.walk(fn) if isinstance(n, ast.If) and isinstance(n.test, ast.Compare) and len(n.test.ops) == 1
+            and isinstance(n.test.ops[0], ast.Eq) and group(n.test.left, "sign")
+            and isinstance(n.test.comparators[0], ast.Constant) and n.test.comparators[0].value == "-"]
+    ok = bool(negs) and any("-1 * " in norm(b) or isinstance(x, ast.UnaryOp) and isinstance(x.op, ast.USub) and not isinstance(x.operand, ast.Constant)
+                            for n in negs for b in n.body for x in ast.walk(b))
     res.oblige("DT", "ODLDecoder.decode_datetime: a '-' sign negates the offset", ok=ok)
     if not ok:
         res.add(Finding("DT", "ODLDecoder.decode_datetime", "sign", "the sign group of the zone offset no longer negates the "
                         "offset for '-' only", where=f"pvl/decoder.py:{fn.lineno}"))
     # PDS3: resolves past ODLDecoder (no offsets) and rejects sub-millisecond precision on every path
-    fn = repo.method("PDSLabelDecoder", "decode_datetime")
+    fn = canon.canon_method(repo, "PDSLabelDecoder", "decode_datetime")
     sup = [n for n in ast.walk(fn) if isinstance(n, ast.Call) and isinstance(n.func, ast.Attribute) and n.func.attr == "decode_datetime"
            and isinstance(n.func.value, ast.Call) and norm(n.func.value.func) == "super"]
     ok = False
-    if len(sup) == 1 and sup[0].func.value.args:
+    if sup and len({norm(x) for x in sup}) == 1 and sup[0].func.value.args:
         after = norm(sup[0].func.value.args[0])
         c, target = repo.resolve_method("PDSLabelDecoder", "decode_datetime", after=after)
         ok = c == "PVLDecoder"
@@ -311,7 +324,7 @@ def rule_decode_side(repo, res):
         res.add(Finding("PDS", "PDSLabelDecoder.decode_datetime", "precision test", "the sub-millisecond precision test no "
                         "longer precedes the return", where=f"pvl/decoder.py:{fn.lineno}"))
     # PDS3 encoder: refuses non-UTC zones and sub-ms precision
-    fn = repo.method("PDSLabelEncoder", "encode_time")
+    fn = canon.canon_method(repo, "PDSLabelEncoder", "encode_time")
     raises = [n for n in ast.walk(fn) if isinstance(n, ast.Raise)]
     conds = " ".join(norm(n.test) for n in ast.walk(fn) if isinstance(n, ast.If))
     ok = len(raises) >= 2 and "microsecond" in conds and ("tzinfo" in conds or "utcoffset" in conds)
@@ -320,7 +333,7 @@ def rule_decode_side(repo, res):
         res.add(Finding("PDS", "PDSLabelEncoder.encode_time", "refusals", "PDSLabelEncoder.encode_time no longer refuses "
                         "sub-millisecond precision or non-UTC zones", where=f"pvl/encoder.py:{fn.lineno}"))
     # ODL encoder refuses naive times
-    fn = repo.method("ODLEncoder", "encode_time")
+    fn = canon.canon_method(repo, "ODLEncoder", "encode_time")
     first = [n for n in fn.body if isinstance(n, ast.If)]
     ok = bool(first) and "tzinfo is None" in norm(first[0].test) and any(isinstance(b, ast.Raise) for b in first[0].body)
     res.oblige("ODL", "ODLEncoder.encode_time refuses a time without zone (ODL cannot write local times)", ok=ok)
@@ -334,7 +347,7 @@ def rule_decode_side(repo, res):
         res.add(Finding("ODL", "ODLEncoder.encode_time", "Z for UTC", "a UTC time is no longer written with a trailing Z",
                         where=f"pvl/encoder.py:{fn.lineno}"))
     # encode_date
-    fn = repo.method("PVLEncoder", "encode_date")
+    fn = canon.canon_method(repo, "PVLEncoder", "encode_date")
     ds = _directives(fn)
     ok = {"Y", "m", "d"} <= ds or {"Y", "j"} <= ds
     res.oblige("R1", "PVLEncoder.encode_date writes year, month and day", ok=ok)
